@@ -50,12 +50,14 @@ Definition phash (H : bytes -> bytes) (p : ptree) : bytes := eval_hexpr H (phash
 (* ------------------------------------------------------------------ *)
 (* the result of node.UnmarshalBinary on the payload of an 0x01 entry:
    a leaf (key, value) or an internal node (LabelBitLength, Label, embedded
-   LeafNode or nil).  Left/Right hashes of a non-compact encoding and trailing
-   bytes are decoded and then overwritten/ignored by verifyProof, so they are
-   not part of the summary. *)
+   LeafNode or nil, and -- when the entry carries the FULL, non-compact
+   encoding, node.go:520-545 -- the claimed Left/Right hashes [claimed]).
+   verifyProof overwrites Left/Right with what the following entries give and
+   recomputes the hash (proof.go:396-407), so [claimed] never enters a hash;
+   trailing bytes are ignored by the decoder. *)
 Inductive nodesum :=
 | NLeaf (k v : bytes)
-| NInt (bl : N) (lb : bytes) (lf : option (bytes * bytes)).
+| NInt (bl : N) (lb : bytes) (lf : option (bytes * bytes)) (claimed : option (bytes * bytes)).
 
 Inductive pentry :=
 | ENil                    (* entry == nil              proof.go:359 *)
@@ -92,7 +94,7 @@ Fixpoint vp (fuel : nat) (ver : N) (depth : N) (es : list pentry) : vres :=
             | EHash h =>                                             (* :417-424 *)
                 if (length h =? HASH_SIZE)%nat then VOk (PHash h) rest else VErr EMalformed
             | EFull (NLeaf k v) => VOk (PLeaf k v) rest              (* :369, :410 *)
-            | EFull (NInt bl lb lf) =>                               (* :376-408 *)
+            | EFull (NInt bl lb lf _) =>                             (* :376-408; claimed child hashes unused: :396-407 *)
                 let rlf :=
                   if ver =? 0 then VOk (olf_ptree lf) rest           (* :378 leaf is embedded *)
                   else vp f ver (depth + 1) rest in                  (* :386 leaf is a child *)
@@ -226,7 +228,7 @@ Section Build.
   (* the 0x01 entry of an internal node: CompactMarshalBinaryV0 carries the leaf,
      CompactMarshalBinaryV1 never does (node.go:406-441) *)
   Definition self_entry (lbl : path) (lf : option (bytes * bytes)) : pentry :=
-    EFull (NInt (N.of_nat (length lbl)) (pack lbl) (if ver =? 0 then lf else None)).
+    EFull (NInt (N.of_nat (length lbl)) (pack lbl) (if ver =? 0 then lf else None) None).
 
   (* in version 1 the LeafNode pointer is the first child (proof.go:152-158) *)
   Definition v1 (e : pentry) : list pentry := if ver =? 0 then [] else [e].
